@@ -476,7 +476,7 @@ mod e2e {
 }
 
 /// datagrams for the end-to-end run: the peer address is fixed by the sockets
-fn gen_e2e(rng: &mut Rng, from: IpAddr) -> Vec<(String, Vec<u8>)> {
+fn gen_e2e(rng: &mut Rng, from: IpAddr, extra: usize) -> Vec<(String, Vec<u8>)> {
     let mut v: Vec<(String, Vec<u8>)> = vec![];
     let (nib, host): (u8, Vec<u8>) = match from { IpAddr::V4(a) => (0, a.octets().to_vec()), IpAddr::V6(a) => (3, a.octets().to_vec()) };
     let mut other = host.clone(); let k = other.len() - 1; other[k] ^= 1;
@@ -509,15 +509,27 @@ fn gen_e2e(rng: &mut Rng, from: IpAddr) -> Vec<(String, Vec<u8>)> {
         v.push((format!("SCMP type {ty} from a spoofed source"), q.bytes()));
     }
     for n in [1usize, 40, 2000] { v.push((format!("{n} random bytes"), (0..n).map(|_| rng.next() as u8).collect())); }
+    // random bit flips in the header of a packet that would be accepted
+    for _ in 0..extra {
+        let pt = rng.below(2) as u8;
+        let p = Pkt::new(nib, host.clone(), pt, path_of(rng, pt), payload_of(rng, 16));
+        let mut b = p.bytes(); let hl = b.len() - 16;
+        let mut what = vec![];
+        for _ in 0..(1 + rng.below(2)) {
+            let pos = if rng.chance(1, 2) { *rng.pick(&[0usize, 4, 5, 6, 7, 8, 9]) } else { rng.below(hl as u64) as usize };
+            let bit = 1u8 << rng.below(8); b[pos] ^= bit; what.push(format!("{pos}^{bit:#x}"));
+        }
+        if b.len() != 3 { v.push((format!("flips {}", what.join(",")), b)); }
+    }
     v
 }
 
-fn run_e2e(rng: &mut Rng, cases: &mut Vec<(Case, Obs)>, sum: &mut Summary) {
+fn run_e2e(rng: &mut Rng, cases: &mut Vec<(Case, Obs)>, sum: &mut Summary, extra: usize) {
     for (name, bind, cbind, connect) in [("v4", "127.0.0.1:0", "127.0.0.1:0", "127.0.0.1"), ("v6", "[::1]:0", "[::1]:0", "::1"),
                                          ("dual", "[::]:0", "127.0.0.1:0", "127.0.0.1")] {
         let Some(mut gw) = e2e::start(bind, cbind, connect) else { sum.count(&format!("e2e.{name}.unavailable")); continue };
         if !gw.handshake() { sum.count(&format!("e2e.{name}.no_handshake")); continue; }
-        for (note, dgram) in gen_e2e(rng, gw.from) {
+        for (note, dgram) in gen_e2e(rng, gw.from, extra) {
             let o = gw.run(&dgram);
             if o.class == 8 { sum.count(&format!("e2e.{name}.not_synchronised")); continue; }
             sum.count(&format!("e2e.{name}.cases"));
@@ -585,7 +597,7 @@ fn main() {
     let mut sum = Summary::default();
     let mut seen = std::collections::HashSet::new();
     let mut observed: Vec<(Case, Obs)> = cases.iter().map(|c| (c.clone(), run_impl(&pool, c))).collect();
-    if arg("--no-e2e").is_none() { run_e2e(&mut rng, &mut observed, &mut sum); }
+    if arg("--no-e2e").is_none() { run_e2e(&mut rng, &mut observed, &mut sum, if thorough { 400 } else { 40 }); }
     for (c, o) in &observed {
         sum.count(&format!("kind.{}", c.kind));
         sum.count(&format!("class.{}", ["dispatch", "reply", "encode_error", "suppressed", "", "", "", "", "", "panic"][o.class as usize]));
